@@ -25,6 +25,7 @@ try:
     if rc != 0:
         print(json.dumps(res)); sys.exit(0)
     run("git reset -q", wt)
+    run("git add -A -N .", wt)  # intent-to-add: files the change creates must be part of the stored patch
     patch = subprocess.run(["git", "-C", wt, "diff"], capture_output=True, text=True).stdout
     res["touches_tests"] = "_test.go" in "".join(l for l in patch.splitlines() if l.startswith("diff --git"))
     res["build"] = run("go build ./...", wt)[0] == 0
